@@ -1,5 +1,5 @@
 #!/bin/bash
 # integrate a builder's private copy:  tools/integrate.sh C15   (lists differing files, copies the new ones)
-P=$1; W=/tmp/w$P/verif
+P=$1; W=${2:-/tmp/w$P}/verif
 cd "$W" || exit 1
 rsync -rcn --out-format='%n' --exclude .lake --exclude .work --exclude .audit --exclude replays --exclude __pycache__ --exclude 'lean/QcelVerif/Gen' --exclude .git --exclude 'evidence' --exclude '.lake.lock' ./ /verif/ | grep -v '/$'
